@@ -55,7 +55,8 @@ CLAIMED = {
                'stream + Coq checker on bystanders + with/without-offender comparison of the bystanders\' view + allocation guard + a packet '
                'processed from inside a broadcast\'s send (Server/EmitNested.v, C12_nested_run).', 'DESIGN.md section 6 C12'),
     'C16': srv('Proof about the model of the session store + correspondence + Coq checker replaying a specification store keyed by '
-               '(sid, namespace); one open finding (KNOWN_FINDINGS.txt).', 'DESIGN.md section 6 C16'),
+               '(sid, namespace), proved to accept the model\'s own run for every history without a namespace rejoin on one transport '
+               '(C16_fold_run_except); one open finding (KNOWN_FINDINGS.txt).', 'DESIGN.md section 6 C16'),
     'C13': ('py2coq translation of the four lookup functions from /repo on every run; Coq theorems (generated function = six-level '
             'precedence spec for all registries/events/namespaces/args) re-proved against the regenerated text; ns2coq translation of the '
             'namespace classes\' trigger_event; theorems over all histories of registrations and events; exhaustive run on the real classes',
